@@ -35,9 +35,12 @@ type task struct {
 	// a plain word written by the task and read by the checker after All returned:
 	// lets the race detector see a missing happens-before edge
 	plain int64
+	// set on entry: a task All never called has neither a value nor an error of its own
+	started atomic.Bool
 }
 
 func (t *task) fn(ctx context.Context) (v int64, err error) {
+	t.started.Store(true)
 	defer func() {
 		t.retVal, t.retErr = v, err
 		t.plain = v + 1
@@ -215,11 +218,27 @@ func oneRun(name string, rng *rand.Rand) runResult {
 	}
 	if unfinished > 0 {
 		flag("returned-before-tasks-finished:cancel-"+cancelMode, fmt.Sprintf("All returned while %d of %d tasks had not finished", unfinished, n))
-		// let them finish before their records are read
+		// let them finish before their records are read; a task that has not even been entered a
+		// second after All returned was never run: what All reports for it is not its outcome
+		deadline := time.Now().Add(time.Second)
 		for _, t := range tasks {
+			for !t.started.Load() && time.Now().Before(deadline) {
+				time.Sleep(50 * time.Microsecond)
+			}
+		}
+		never := 0
+		for _, t := range tasks {
+			if !t.started.Load() {
+				never++
+				continue
+			}
 			for !t.finished.Load() {
 				time.Sleep(50 * time.Microsecond)
 			}
+		}
+		if never > 0 {
+			flag("task-never-run:cancel-"+cancelMode, fmt.Sprintf("%d of %d tasks were never called, yet All returned a result for them", never, n))
+			return res
 		}
 	}
 	for i, t := range tasks {
